@@ -287,6 +287,24 @@ fn c16_units(tier: Tier) -> Vec<Unit> {
             ctx.sample(json!({"path": ["P1DDR=00", "P1DR=ff", "P1DDR=ff"], "port": p}));
         }));
     }
+    // ---- the same histories with the print-messages flag on (-m): what is printed is still announced
+    for p in [1u8, 6, 11] {
+        let depth = 4usize;
+        let dom = format!("port {:X} with the print-messages flag (-m) switched on: every sequence of up to {} actions over {{write DDR, write DR, external pins}} x values {:02x?}; every announcement must still reach the message channel", p, depth, VP4);
+        units.push(Unit::new(&format!("port{:X}/seq-with-print-flag", p), 12, &dom, move |ctx, chunk| {
+            *crate::setting::ENABLE_PRINT_MESSAGES.write().unwrap() = true;
+            let acts = actions(&[p], &VP4);
+            let mut sys = PortSys::new();
+            let first = acts[chunk as usize];
+            let mut path = vec![first];
+            ctx.st.cases += 1;
+            match sys.apply(&first, &[p]) {
+                Ok(()) => dfs(ctx, &mut sys, &acts, &[p], depth - 1, &mut path),
+                Err(m) => report(ctx, &path, m),
+            }
+            *crate::setting::ENABLE_PRINT_MESSAGES.write().unwrap() = false;
+        }));
+    }
     // ---- per port: full reachable product graph (implementation bytes x reference) over VP4 / VP8, BFS with merging
     for p in 1..=11u8 {
         let vals: Vec<u8> = if thorough { VP8.to_vec() } else { VP4.to_vec() };
